@@ -42,6 +42,8 @@ XOP = {"set": "=", "add": "+=", "sub": "-=", "mul": "*="}
 
 def lazy_cxx(e, dname):
     k = e["k"]
+    if k == "s":
+        return "decltype(o.D)::scalar_type(%d)" % e["v"]
     if k == "t":
         return dname if e["n"] == "D" else "o." + e["n"]
     if k in ("add", "sub", "mul", "mm"):
@@ -58,6 +60,8 @@ def lazy_cxx(e, dname):
 def eager_cxx(e, tt):
     """every node evaluated immediately into a tensor, on the ORIGINAL operands (D -> o.D)"""
     k = e["k"]
+    if k == "s":
+        return "decltype(o.D)::scalar_type(%d)" % e["v"]
     if k == "t":
         return "o." + e["n"]
     if k in ("add", "sub", "mul"):
@@ -76,6 +80,8 @@ def eager_cxx(e, tt):
 
 def tstr(e):
     k = e["k"]
+    if k == "s":
+        return "s%d" % e["v"]
     if k == "t":
         return e["n"]
     if "l" in e:
